@@ -180,12 +180,20 @@ class RealFactory:
 
 def run_and_compare(cs):
     """(observed, diffs) for a single or multi-world concretised script"""
+    if cs.get("kind") == "db":
+        from . import realfs
+        o = realfs.run_db_script(cs)
+        return dict(obs=[[k, v] for k, v in sorted(o.items()) if k != "events_first"], db=o), realfs.compare_db(cs["predicted"], o)
     if "multi" in cs:
         obs, diffs = [], []
         for i, one in enumerate(cs["multi"]):
-            o = run_script(one)
+            if one.get("kind") == "db":
+                o, dd = run_and_compare(one)
+            else:
+                o = run_script(one)
+                dd = compare(one["predicted"], o)
             obs.append(o)
-            diffs += ["run %d: %s" % (i + 1, d) for d in compare(one["predicted"], o)]
+            diffs += ["run %d: %s" % (i + 1, d) for d in dd]
         return dict(obs=[o["obs"] for o in obs], multi=obs), diffs
     o = run_script(cs)
     return o, compare(cs["predicted"], o)
